@@ -518,8 +518,15 @@ pub fn execute(plan: &Plan, ctx: &mut Ctx) {
             }
             "LQ" if i < NQ => {
                 // leaf i carries unit (qm, qs) except leaf 2 which is dimensionless (for products)
-                let u = if i == 2 { (0, 0) } else { qunit };
-                script.q[i] = Out::Some(op.arg(1), Val::Q(op.arg(2) as u32, u.0, u.1));
+                let u = if op.a.len() >= 5 {
+                    (op.arg(3) as i8, op.arg(4) as i8) // explicit (possibly ill-dimensioned) unit
+                } else if i == 2 {
+                    (0, 0)
+                } else {
+                    qunit
+                };
+                let su = if cfg!(feature = "v_nodim") { (0, 0) } else { u };
+                script.q[i] = Out::Some(op.arg(1), Val::Q(op.arg(2) as u32, su.0, su.1));
                 rig.lq[i].set(Ok(Some(Datum::new(Time(op.arg(1)), Quantity::new(op.f(2), Unit::new(u.0, u.1))))));
             }
             "LFN" if i < NF => {
@@ -723,7 +730,8 @@ pub fn execute(plan: &Plan, ctx: &mut Ctx) {
             }
         }
         if ctx.record_trace || true {
-            ctx.trace(&format!("{} {} {:?} -> {}", oi, op.code, op.a, outs.iter().map(|o| o.show()).collect::<Vec<_>>().join(" | ")));
+            let shown: &[i64] = if op.code == "LQ" { &op.a[..op.a.len().min(3)] } else { &op.a };
+            ctx.trace(&format!("{} {} {:?} -> {}", oi, op.code, shown, outs.iter().map(|o| o.show()).collect::<Vec<_>>().join(" | ")));
         }
     }
     if let (Some(a), Some(b)) = (tmin, tmax_seen) {
@@ -881,6 +889,8 @@ pub fn gen_c02(prop: &str, tier: Tier, rng: &mut Rng, seed: u64, run: u64) -> Pl
                     let i = rng.below(NQ as u64) as i64;
                     if faulty {
                         if rng.chance(0.5) { plan.push("LQN", &[i]) } else { plan.push("LQE", &[i, rng.range(1, 2)]) }
+                    } else if prop == "C19ill" && rng.chance(0.5) {
+                        plan.push("LQ", &[i, t, fb(rng.moderate_f32()), rng.range(-2, 2), rng.range(-2, 2)]);
                     } else {
                         plan.push("LQ", &[i, t, fb(rng.moderate_f32())]);
                     }
